@@ -592,7 +592,7 @@ func main() {
 	}
 
 	// ---------- merge stream ----------
-	nMerge := f.Count(360)
+	nMerge := f.Count(320)
 	for i := 0; i < nMerge; i++ {
 		r := rng.Fork()
 		dup := r.Chance(1, 5)
